@@ -559,7 +559,8 @@ theorem cgDoStep_tally (ht : Tally I R) (fuel : Nat) (s s' : St G (Cg α) α) (v
               obtain ⟨rfl, -⟩ := h
               exact ⟨hR, rfl, rfl⟩
 
-/-- a step of the BFGS method: the line search (counted) and one evaluation more -/
+/-- a step of the BFGS method: the line search (counted) and one evaluation more; when the function has
+increased, a further evaluation back at the point the step started from, which is counted -/
 theorem bfgsDoStep_tally (ht : Tally I R) (fuel : Nat) (s s' : St G (Bfgs α) α) (v : α)
     (h : bfgsDoStep I fuel s = .ok (s', v)) :
     ∃ k, R s.fn s'.fn (k + 1) ∧ s'.core.nbEval = s.core.nbEval + k ∧ s'.core.nbEvalMax = s.core.nbEvalMax := by
@@ -576,12 +577,20 @@ theorem bfgsDoStep_tally (ht : Tally I R) (fuel : Nat) (s s' : St G (Bfgs α) α
       have h2 := ht.f_ok _ _ _ _ hf
       have hR := ht.trans _ _ _ _ _ h1 h2
       try dsimp only at h
-      refine ⟨k, ?_⟩
       split at h
-      · simp only [Except.ok.injEq, Prod.mk.injEq] at h
-        obtain ⟨rfl, -⟩ := h
-        exact ⟨hR, rfl, rfl⟩
       · split at h
+        · cases h
+        · rename_i pl0 _
+          try dsimp only at h
+          split at h
+          · cases h
+          · rename_i fn3 f0 hf3
+            have h3 := ht.f_ok _ _ _ _ hf3
+            simp only [Except.ok.injEq, Prod.mk.injEq] at h
+            obtain ⟨rfl, -⟩ := h
+            exact ⟨k + 1, ht.trans _ _ _ _ _ hR h3, rfl, rfl⟩
+      · refine ⟨k, ?_⟩
+        split at h
         · simp only [Except.ok.injEq, Prod.mk.injEq] at h
           obtain ⟨rfl, -⟩ := h
           exact ⟨hR, rfl, rfl⟩
